@@ -21,10 +21,11 @@ type Inst struct {
 	nc     *nats.Conn
 	nwatch int64
 
-	mu        sync.Mutex
-	healthN   int
-	promotes  int64
-	startedCt int64
+	mu          sync.Mutex
+	startCancel context.CancelFunc
+	healthN     int
+	promotes    int64
+	startedCt   int64
 }
 
 func (in *Inst) watchPlan(n int) WatchPlan {
